@@ -1,4 +1,5 @@
 CONSTANT Want = {"c01"}
+CONSTANT Conform = FALSE
 INIT TraceInit
 NEXT TraceNext
 INVARIANTS C01_UnitsPreserved
